@@ -42,7 +42,7 @@ def BOUNDS(tier):
     return {"rich": {"depth": 1, "alphabet": "full"}, "mini": {"depth": 2, "alphabet": "full"},
             
             "empty": {"depth": 4, "alphabet": "full"}, "handles": ["ABAB", "fresh"],
-            "states mode (E1s, de-duplicated BFS)": {"mini": "all canonical states <= 2 thin operations away (3 869), every thin operation from each: depth 3",
+            "states mode (E1s, de-duplicated BFS)": {"mini": "canonical states <= 2 thin operations away (level 2: those reached by structural operations only), every thin operation from each: depth 3",
                                                      "empty": "all canonical states <= 3 operations away, every operation from each: depth 4 (depth 5 = 11 911 states was measured but does not fit the time budget together with the un-merged depth-4 histories)"}}
 
 
@@ -86,11 +86,19 @@ def cases(tier):
         plan = [("mini", 1, "thin")]
     else:
         plan = [("mini", 2, "thin"), ("empty", 3, "full")]
+    STRUCT = {"create", "delete", "link", "unlink", "set_ref", "set_meta", "create_feature", "append_dim", "set_link", "write", "pvalues"}
     for seed, depth, cname in plan:
         states, stats = bfs.enumerate_states(seed, depth, BFS_CFG[cname], cache_key=cname)
         BFS_STATS["%s/%d/%s" % (seed, depth, cname)] = stats
+        kept = 0
         for st in states:
+            # thorough, mini, level 2: only states reached by two structural operations are expanded (attribute
+            # values do not change which operations are enabled or how they behave); levels 0-1 are expanded fully
+            if tier != "quick" and seed == "mini" and st["level"] == 2 and not all(op[0] in STRUCT for op in st["prefix"]):
+                continue
+            kept += 1
             out.append(dict(st, mode="expand", cfg=cname))
+        stats["states_expanded"] = kept
     return out
 
 
